@@ -315,6 +315,9 @@ func (w *c07world) runBatch(out *vharness.Out, kind string, seqs [][]c07op, ncon
 		}
 		w.issue = ""
 		got, obsCoq := w.observe(ma, cs)
+		if _, again := w.observe(ma, cs); again != obsCoq && ok {
+			ok, note = false, fmt.Sprintf("contact lifecycle: reading the records twice gives two answers (after %v)", seq)
+		}
 		if w.issue != "" && ok {
 			ok, note = false, "contact lookup by group key: "+w.issue+fmt.Sprintf(" (after %v)", seq)
 		}
